@@ -4,11 +4,17 @@
   generated constants of Generated/C17.lean and by differential execution in harness/c17.py),
   the specification vocabulary is FordModel/PageTreeSpec.lean, helper lemmas are in
   FordModel/Lemmas/PageTree.lean and FordModel/Lemmas/PageTreeNodup.lean.
+  Round 5: the text level of the aliases (FordModel/PageAlias.lean, Lemmas/PageAlias.lean), the containment
+  guard of the walk (Lemmas/PageGuard.lean) and the two probe tables (Generated/C17.lean, Generated/C17Probe.lean).
 -/
 import FordModel.PageTree
 import FordModel.PageTreeSpec
 import FordModel.Lemmas.PageTree
 import FordModel.Lemmas.PageTreeNodup
+import FordModel.PageAlias
+import FordModel.Lemmas.PageAlias
+import FordModel.Lemmas.PageGuard
+import FordModel.Generated.C17Probe
 namespace Ford.C17
 open Ford Ford.PT Ford.Gen.C17
 
@@ -464,11 +470,13 @@ theorem top_nav_link_correct (base : PathS) (top q : Node) (hb : Plain base) (ht
     sub-directory, `parent` is the node just built, and every other parameter (`proj_copy_subdir`,
     `output_dir`, `md`, `progress`, `encoding`, and whatever is added later) is the caller's own value
     - none omitted (which would silently fall back to its default below the top directory).
-    Stated over the generated call table. -/
+    Stated over the generated call table, which since round 5 is OBSERVED (the walk is run with a recognisable
+    value for every argument and the arguments that arrive one and two levels down are named by what they are:
+    `<entry>` = the directory entry being processed, `<node>` = the PageNode of the calling level's index.md). -/
 theorem recursive_call_forwards :
     ∀ p ∈ gptParams.map Prod.fst,
       recCall.lookup p =
-        some (if p == (pt! "topdir") then (pt! "filename") else if p == (pt! "parent") then (pt! "node") else p) := by
+        some (if p == (pt! "topdir") then (pt! "<entry>") else if p == (pt! "parent") then (pt! "<node>") else p) := by
   decide
 
 /-- Both `PageNode(...)` calls (index.md of the directory, sibling page in the loop) pass every parameter
@@ -477,9 +485,9 @@ theorem recursive_call_forwards :
 theorem page_reads_forward :
     (∀ p ∈ pageNodeParams.map Prod.fst,
       indexNodeCall.lookup p =
-        some (if p == (pt! "path") then (pt! "index_file") else p) ∧
+        some (if p == (pt! "path") then (pt! "<index>") else p) ∧
       subNodeCall.lookup p =
-        some (if p == (pt! "path") then (pt! "filename") else if p == (pt! "parent") then (pt! "node") else p)) ∧
+        some (if p == (pt! "path") then (pt! "<entry>") else if p == (pt! "parent") then (pt! "<node>") else p)) ∧
     readTextArg = encParam := by
   decide
 
@@ -538,6 +546,138 @@ theorem encoding_not_forwarded_witness :
       [[pt! "index.html"], [pt! "c.html"], [pt! "sub", pt! "index.html"], [pt! "sub", pt! "c.html"]] ∧
     expPages (viewL l1 w) =
       [[pt! "index.html"], [pt! "c.html"], [pt! "sub", pt! "index.html"], [pt! "sub", pt! "c.html"]] := by
+  decide
+
+/-! ### the aliases in the text of a page: every line, whatever it starts with -/
+
+/-- `AliasPreprocessor.run` treats every line of the page, in place and in order: the result is the list
+    of the images of the lines under the per-line substitution - no line is exempt (whatever it starts with),
+    none is dropped, added or moved. -/
+theorem alias_run_every_line (al : List (Str × Str)) (lines : List Str) :
+    PA.aliasRun al lines = lines.map (PA.aliasLine al) ∧ (PA.aliasRun al lines).length = lines.length := by
+  rw [PA.aliasRun_eq_map]
+  simp
+
+/-- Indentation plays no role: a line that starts with any number of blanks and tabs (the continuation
+    paragraph of a list item, a nested list item, ...) is substituted exactly like the same line without them. -/
+theorem alias_indentation_irrelevant (al : List (Str × Str)) (ws s : Str)
+    (hws : ∀ c ∈ ws, c = ' ' ∨ c = '\t') :
+    PA.aliasLine al (ws ++ s) = ws ++ PA.aliasLine al s := by
+  have hp : '|' ∉ ws := fun h => by rcases hws _ h with h' | h' <;> exact absurd h' (by decide)
+  have hb : '\\' ∉ ws := fun h => by rcases hws _ h with h' | h' <;> exact absurd h' (by decide)
+  unfold PA.aliasLine
+  rw [PA.subGo_prefix al ws s false hp, PA.bsAfter_no_bs ws hb, PA.unescGo_prefix ws _ hb]
+
+/-- An alias is replaced wherever it stands on its line: for every text `pre` before it (indentation, list
+    or quote markers, the text of a link, ... - anything without a pipe or a backslash), every alias name
+    without blank and pipe that the dictionary knows, and every text `post` after it, the line
+    `pre|name|post` becomes `pre<value>post`. -/
+theorem alias_substituted_anywhere (al : List (Str × Str)) (pre name val post : Str)
+    (hpre : '|' ∉ pre) (hpreb : '\\' ∉ pre)
+    (hne : name ≠ []) (hs : ' ' ∉ name) (hp : '|' ∉ name) (hl : al.lookup name = some val)
+    (hval : '\\' ∉ val) (hpost : '|' ∉ post) (hpostb : '\\' ∉ post) :
+    PA.aliasLine al (pre ++ '|' :: name ++ '|' :: post) = pre ++ val ++ post := by
+  have hhead : post.head? ≠ some '|' := by
+    intro h
+    cases post with
+    | nil => simp at h
+    | cons c r => simp at h; exact hpost (by simp [h])
+  unfold PA.aliasLine
+  rw [PA.subGo_alias al pre name post false hpre (PA.bsAfter_no_bs pre hpreb) hne hs hp hhead,
+    PA.subGo_no_pipe al post false hpost]
+  have hlk : PA.lookupAlias al name = val := by simp [PA.lookupAlias, hl]
+  rw [hlk]
+  apply PA.unescGo_no_bs
+  simp only [List.mem_append, not_or]
+  exact ⟨⟨hpreb, hval⟩, hpostb⟩
+
+/-- The text level and the link level agree: with the dictionary that `ford.main` builds, a link written
+    `|alias|rest` anywhere on a line (after any `pre`, before any `post`) is handed to Python-Markdown as
+    `linkHref` - the href that `alias_link_correct` and `media_link_reaches_copied_file` are about -
+    also for an unknown alias (left as written). -/
+theorem alias_line_is_link_href (base : PathS) (l : Link) (pre post : Str)
+    (hpre : '|' ∉ pre) (hpreb : '\\' ∉ pre)
+    (hne : l.alias ≠ []) (hs : ' ' ∉ l.alias) (hp : '|' ∉ l.alias)
+    (hrest : '|' ∉ l.rest ++ post) (hpostb : '\\' ∉ post) (hval : '\\' ∉ linkHref base l) :
+    PA.aliasLine (mainAliases base) (pre ++ '|' :: l.alias ++ '|' :: (l.rest ++ post)) =
+      pre ++ linkHref base l ++ post := by
+  have hhead : (l.rest ++ post).head? ≠ some '|' := by
+    intro h
+    cases hrp : l.rest ++ post with
+    | nil => simp [hrp] at h
+    | cons c r => rw [hrp] at h hrest; simp at h; exact hrest (by simp [h])
+  unfold PA.aliasLine
+  rw [PA.subGo_alias (mainAliases base) pre l.alias (l.rest ++ post) false hpre (PA.bsAfter_no_bs pre hpreb)
+        hne hs hp hhead,
+    PA.subGo_no_pipe (mainAliases base) (l.rest ++ post) false hrest]
+  have e : pre ++ PA.lookupAlias (mainAliases base) l.alias ++ (l.rest ++ post) =
+      pre ++ linkHref base l ++ post := by
+    rw [← PA.lookupAlias_linkHref base l hne]
+    simp [List.append_assoc]
+  rw [e]
+  apply PA.unescGo_no_bs
+  simp only [List.mem_append, not_or]
+  exact ⟨⟨hpreb, hval⟩, hpostb⟩
+
+/-- The model is the code on the probe lines: the alias preprocessor that `MetaMarkdown(aliases=...)` registers
+    was run on `aliasProbeIn` (aliases at the start of a line, behind one to eight blanks, behind tabs, list
+    and quote markers, escaped, unknown, unterminated) when the tables were generated; what it returned is what
+    the model computes.  (A source that exempts any kind of line changes `aliasProbeOut`.) -/
+theorem alias_probe_agrees : PA.aliasRun aliasProbeAliases aliasProbeIn = aliasProbeOut := by
+  decide
+
+/-- non-vacuity of `alias_substituted_anywhere` / documented escape: a nested list item, a tab, an escaped alias -/
+example :
+    PA.aliasLine [(pt! "page", pt! "/o/page")] (pt! "    - [alpha](|page|/alpha.html)") = pt! "    - [alpha](/o/page/alpha.html)" ∧
+    PA.aliasLine [(pt! "page", pt! "/o/page")] (pt! "\tsee |page|/a.html and |page|/b.html") = pt! "\tsee /o/page/a.html and /o/page/b.html" ∧
+    PA.aliasLine [(pt! "page", pt! "/o/page")] (pt! "    \\|page| stays, |nope| too") = pt! "    |page| stays, |nope| too" := by
+  decide
+
+/-! ### symbolic links in the page directory, the containment guard -/
+
+/-- "hidden / backup files": of all printable ASCII characters a file name can begin or end with (probed on
+    the real `get_page_tree`, one directory entry per character), exactly a leading `.` and a trailing `~` make
+    the walk pass over an entry - the rule the specification (`expPages`) and the oracle use. -/
+theorem hidden_and_backup_names_skipped : skipFirst = ['.'] ∧ skipLast = ['~'] := by
+  decide
+
+/-- The guard that keeps `ordered_subpage` entries inside their directory never rejects an entry of the
+    directory itself: for every directory and every name that is one plain path segment (what `os.listdir`
+    returns: not empty, not `.` / `..`, no `/`), `relpath(topdir / name, topdir)` is `name` and the guard lets it
+    through.  The computation is on the names only: whether the entry is a regular file, a directory or a
+    symbolic link to something kept elsewhere cannot matter. -/
+theorem guard_keeps_directory_entries (topdir : PathS) (name : Str) (ht : Plain topdir) (hn : Plain [name])
+    (hs : '/' ∉ name) : guardSkips topdir name = false :=
+  guardSkips_plain topdir name ht hn hs
+
+/-- ... while user-given entries that leave the directory (or name the directory itself) are rejected, and
+    entries below it are not (non-vacuity of the guard). -/
+theorem guard_rejects_escape_witness :
+    guardSkips [pt! "w", pt! "pages"] (pt! "../outside.md") = true ∧
+    guardSkips [pt! "w", pt! "pages"] (pt! "sub/../../x.md") = true ∧
+    guardSkips [pt! "w", pt! "pages"] (pt! ".") = true ∧
+    guardSkips [pt! "w", pt! "pages"] (pt! "sub/x.md") = false := by
+  decide
+
+/-- The page directory is what it looks like through its links: on the probe directory - `changelog.md`, an
+    asset, a folder with pages and a page inside a folder are symbolic links to things kept OUTSIDE the page
+    directory, `news.md` is a link to its sibling `a.md`, `broken.md` a link to nothing, and index.md names
+    `../outside.md` - the real `get_page_tree` (run when the tables were generated) built exactly the pages, in
+    exactly the order, and recorded exactly the files that the model computes for the directory with every
+    link replaced by what it points to. -/
+theorem symlinks_transparent_probe :
+    resPaths (getPageTree ⟨.asIs, .skips⟩ walkProbeDir) = walkProbePages ∧
+    resPaths (getPageTree ⟨.ignored, .skips⟩ walkProbeDir) = walkProbePages ∧
+    (match getPageTree ⟨.asIs, .skips⟩ walkProbeDir with
+     | .page nd => (preorder nd).map Node.files
+     | _ => []) = walkProbeFiles := by
+  decide
+
+/-- ... and that is the whole directory: every titled Markdown file of the probe directory, linked or not,
+    has its page among the pages the real code built, and nothing else was built (`../outside.md` was not). -/
+theorem symlink_probe_mirrors :
+    (∀ p ∈ expPages walkProbeDir, p ∈ walkProbePages) ∧ (∀ p ∈ walkProbePages, p ∈ expPages walkProbeDir) ∧
+    walkProbePages.length = 9 := by
   decide
 
 end Ford.C17
